@@ -1016,7 +1016,15 @@ var paths = []pathFn{
 		if err != nil {
 			return nil, err
 		}
-		m, err := parquet.MergeRowGroups(f.RowGroups(), b.ts)
+		// the slice of inputs belongs to the caller: it is as it was after the
+		// call, and the SAME slice merged again, through the schema of the
+		// file, holds the rows of the file
+		inputs := f.RowGroups()
+		snap := snapshotArgs(inputs)
+		m, err := parquet.MergeRowGroups(inputs, b.ts)
+		if e := snap.check("MergeRowGroups(inputs, target schema)", inputs); e != nil {
+			return nil, e
+		}
 		if err != nil {
 			return nil, err
 		}
@@ -1025,7 +1033,37 @@ var paths = []pathFn{
 		}
 		rows := m.Rows()
 		defer rows.Close()
-		return readAll(rows, 5+int(cs.Seed%3))
+		got, err := readAll(rows, 5+int(cs.Seed%3))
+		if err != nil {
+			return got, err
+		}
+		if len(inputs) > 0 {
+			m2, err := parquet.MergeRowGroups(inputs, f.Schema())
+			if e := snap.check("MergeRowGroups(the same inputs, schema of the file)", inputs); e != nil {
+				return nil, e
+			}
+			if err != nil {
+				return nil, fmt.Errorf("second MergeRowGroups of the same inputs, through the schema of the file: %w", err)
+			}
+			rows2 := m2.Rows()
+			again, err := readAll(rows2, 4+int(cs.Seed%5))
+			rows2.Close()
+			if err != nil {
+				return nil, fmt.Errorf("second MergeRowGroups of the same inputs, through the schema of the file: %w", err)
+			}
+			if len(again) != len(b.rows) {
+				return nil, &classedError{"source-rows-altered", fmt.Sprintf("MergeRowGroups(inputs, target schema), then MergeRowGroups(the same inputs, schema of the file): %d rows, the file holds %d", len(again), len(b.rows))}
+			}
+			for i := range again {
+				if sameRow(b.rows[i], again[i]) {
+					continue
+				}
+				if w, g := safeCanonRow(b.rows[i]), safeCanonRow(again[i]); w != g {
+					return nil, &classedError{"source-rows-altered", fmt.Sprintf("MergeRowGroups(inputs, target schema), then MergeRowGroups(the same inputs, schema of the file): row %d: written [%s] read [%s]", i, core.Trunc(w, 300), core.Trunc(g, 300))}
+				}
+			}
+		}
+		return got, nil
 	}},
 	// the last input is already in the target schema (no conversion), the
 	// earlier ones need one: the decision "some input is converted" must not
@@ -1362,7 +1400,7 @@ func shrink(c *core.Ctx, cs c12Case, class string) c12Case {
 }
 
 func run(c *core.Ctx) {
-	c.Res.Rule = "source schemas from harness/gen (required/optional/repeated leaves of every physical type, groups, LIST groups, depth <= 3) x edit scripts of 0..6 steps (delete a field, permute the fields of a group, add an optional/required/repeated leaf or group of depth <= 2, read a required leaf / group / LIST / variant of the source as an optional one [widening; now and then all fields of the widened group are replaced], at any depth incl. inside LIST groups and next to their element) x 0..12 rows with null runs and empty/long lists; every pair runs through Convert+conversion.Convert, ConvertRowReader, ConvertRowGroup.Rows, NewGenericReader(file, schema), NewReader(file, schema), CopyRows (file reader and plain row reader into a writer with the target schema, read back), MergeRowGroups(schema), and the column-chunk view of converted row groups; each must equal the shredding of the projected value trees, in number and order; in a quarter of the pairs the source holds 1-2 VARIANT columns (required/optional/repeated, in any group) stored unshredded or shredded with a declared type (bool/int32/int64/double/string/bytes/date leaf, object, array, nested to depth 2) that the target declares unshredded (reconstruction) or with the same layout, the edit script deleting / permuting / adding siblings before and after them; the file rows are the shredding (harness implementation of VariantShredding.md) of generated logical values, the expected target pair is any encoding that decodes to the same logical value, at exactly the expected column, place and levels; NewGenericReader(file, schema) and NewReader(file, schema) are also driven through ReadRows(k)/SeekToRow/Reset histories, and so are the conversion wrappers themselves: ConvertRowReader over rows in memory or over the rows of the file (forward SeekToRow to arbitrary, also unaligned rows, then >= 1 batches, then read to the end) and ConvertRowGroup(rg, conv).Rows() of every row group (SeekToRow in both directions), three histories in four with ALL reads going into ONE []Row buffer of 1..5 rows (fresh buffers otherwise), every row compared with the expected row of its position; plus row groups that DECLARE an order: the source rows split into 1-3 row groups, each sorted by 1-3 non-repeated leaf columns (ascending/descending, nulls first/last) and declaring so (parquet.Buffer or file row group), edit scripts biased towards deleting sorting columns or their ancestors; every ConvertRowGroup result must tell the truth: NumRows, Schema, one column chunk per target column with its index and kind, rows = projected rows in source order, every declared sorting column a column of the target and the rows IN the declared order (and = the model's kept prefix of the source's sorting columns); MergeRowGroups(inputs, target schema), MergeRowGroups(converted inputs, target schema) and MergeRowGroups(converted inputs) without a sorting option: same rows, in the order the merged row group declares, the inputs one after the other when it declares none; plus call histories on one deprecated parquet.Reader: source and 2-3 edited views rendered as Go struct types (reflect.StructOf), Read(&view_k) / ReadRows / SeekToRow / Reset sequences of 2-8 calls, files written with the generated schema or with the schema of the source struct type (identity shortcut), one or two row groups, reader opened plain or with a view schema, every value read deconstructed and compared with the shredding of the projection of the row at the reader position; plus a catalogue of (T1, T2) struct pairs through parquet.Write / parquet.Read[T2] and Read(k)/SeekToRow/Reset histories on one GenericReader[T2], incl. files with a shredded variant column (5 declared types, top level and in a repeated group) read into structs that declare it plain and add columns before/after/around it, or hold it in a group that is a struct in the file and a pointer in the struct read, the variant itself null in a third of the rows; plus, on every pair, the SOURCE KIND and the REPETITION of the read: the source rows held by a RowBuffer[any] / Buffer / GenericBuffer[any] / the row group(s) of the file / MultiRowGroup or MergeRowGroups(no sorting columns) of two in-memory buffers of different kinds, taken through the target 2-3 times by CopyRows into a Buffer / RowBuffer[any] / file writer of the target schema, ConvertRowGroup(src).Rows(), ConvertRowReader(src.Rows()), MergeRowGroups({src}, target), NewGenericRowGroupReader[any](src, target), every pass compared with the expected rows and the source read plainly afterwards compared with the rows written to it; the column-chunk view of the converted row groups (file row groups, Buffer, GenericBuffer[any], RowBuffer[any] sources; values read 1..4096 at a time) examined chunk by chunk and page by page: Column() of chunks, pages and values, Page.Slice(i, j) of the rows inside a random range, of a random span and a slice of that slice against the rows of the page, page counts against the source page, Pages().SeekToRow(r), and the range of rows collected through Slice against the model (Convert/Chunks.v chunk_views) for the columns the conversion copies; plus LARGE row groups: 2600-4000 rows sorted by a kept non-repeated column of a kind with mostly distinct values, dealt to two files (the first and the last 1300-1700 rows to one input each, 0/40/400 rows in between alternately; pages of 256/512/1024 bytes; the second file optionally written with the target schema), MergeRowGroups(inputs, target, sorting columns) / (inputs, target) / (converted inputs, target) must hold the projected rows in the declared order, ConvertRowGroup.Rows, CopyRows and NewGenericReader(file, schema) over the first file too, and its column-chunk view read 1025/3000/4096 values at a time; plus targets in which a same-named node changes kind (must be rejected). Non-trivial = at least one edit and one row (histories: at least two distinct views read); distinct by the JSON of the case."
+	c.Res.Rule = "source schemas from harness/gen (required/optional/repeated leaves of every physical type, groups, LIST groups, depth <= 3) x edit scripts of 0..6 steps (delete a field, permute the fields of a group, add an optional/required/repeated leaf or group of depth <= 2, read a required leaf / group / LIST / variant of the source as an optional one [widening; now and then all fields of the widened group are replaced], at any depth incl. inside LIST groups and next to their element) x 0..12 rows with null runs and empty/long lists; every pair runs through Convert+conversion.Convert, ConvertRowReader, ConvertRowGroup.Rows, NewGenericReader(file, schema), NewReader(file, schema), CopyRows (file reader and plain row reader into a writer with the target schema, read back), MergeRowGroups(schema), and the column-chunk view of converted row groups; each must equal the shredding of the projected value trees, in number and order; in a quarter of the pairs the source holds 1-2 VARIANT columns (required/optional/repeated, in any group) stored unshredded or shredded with a declared type (bool/int32/int64/double/string/bytes/date leaf, object, array, nested to depth 2) that the target declares unshredded (reconstruction) or with the same layout, the edit script deleting / permuting / adding siblings before and after them; the file rows are the shredding (harness implementation of VariantShredding.md) of generated logical values, the expected target pair is any encoding that decodes to the same logical value, at exactly the expected column, place and levels; NewGenericReader(file, schema) and NewReader(file, schema) are also driven through ReadRows(k)/SeekToRow/Reset histories, and so are the conversion wrappers themselves: ConvertRowReader over rows in memory or over the rows of the file (forward SeekToRow to arbitrary, also unaligned rows, then >= 1 batches, then read to the end) and ConvertRowGroup(rg, conv).Rows() of every row group (SeekToRow in both directions), three histories in four with ALL reads going into ONE []Row buffer of 1..5 rows (fresh buffers otherwise), every row compared with the expected row of its position; plus row groups that DECLARE an order: the source rows split into 1-3 row groups, each sorted by 1-3 non-repeated leaf columns (ascending/descending, nulls first/last) and declaring so (parquet.Buffer or file row group), edit scripts biased towards deleting sorting columns or their ancestors; every ConvertRowGroup result must tell the truth: NumRows, Schema, one column chunk per target column with its index and kind, rows = projected rows in source order, every declared sorting column a column of the target and the rows IN the declared order (and = the model's kept prefix of the source's sorting columns); MergeRowGroups(inputs, target schema), MergeRowGroups(converted inputs, target schema) and MergeRowGroups(converted inputs) without a sorting option: same rows, in the order the merged row group declares, the inputs one after the other when it declares none; plus call histories on one deprecated parquet.Reader: source and 2-3 edited views rendered as Go struct types (reflect.StructOf), Read(&view_k) / ReadRows / SeekToRow / Reset sequences of 2-8 calls, files written with the generated schema or with the schema of the source struct type (identity shortcut), one or two row groups, reader opened plain or with a view schema, every value read deconstructed and compared with the shredding of the projection of the row at the reader position; plus a catalogue of (T1, T2) struct pairs through parquet.Write / parquet.Read[T2] and Read(k)/SeekToRow/Reset histories on one GenericReader[T2], incl. files with a shredded variant column (5 declared types, top level and in a repeated group) read into structs that declare it plain and add columns before/after/around it, or hold it in a group that is a struct in the file and a pointer in the struct read, the variant itself null in a third of the rows; plus, on every pair, the SOURCE KIND and the REPETITION of the read: the source rows held by a RowBuffer[any] / Buffer / GenericBuffer[any] / the row group(s) of the file / MultiRowGroup or MergeRowGroups(no sorting columns) of two in-memory buffers of different kinds, taken through the target 2-3 times by CopyRows into a Buffer / RowBuffer[any] / file writer of the target schema, ConvertRowGroup(src).Rows(), ConvertRowReader(src.Rows()), MergeRowGroups({src}, target), NewGenericRowGroupReader[any](src, target), every pass compared with the expected rows and the source read plainly afterwards compared with the rows written to it; the column-chunk view of the converted row groups (file row groups, Buffer, GenericBuffer[any], RowBuffer[any] sources; values read 1..4096 at a time) examined chunk by chunk and page by page: Column() of chunks, pages and values, Page.Slice(i, j) of the rows inside a random range, of a random span and a slice of that slice against the rows of the page, page counts against the source page, Pages().SeekToRow(r), and the range of rows collected through Slice against the model (Convert/Chunks.v chunk_views) for the columns the conversion copies; plus LARGE row groups: 2600-4000 rows sorted by a kept non-repeated column of a kind with mostly distinct values, dealt to two files (the first and the last 1300-1700 rows to one input each, 0/40/400 rows in between alternately; pages of 256/512/1024 bytes; the second file optionally written with the target schema), MergeRowGroups(inputs, target, sorting columns) / (inputs, target) / (converted inputs, target) must hold the projected rows in the declared order, ConvertRowGroup.Rows, CopyRows and NewGenericReader(file, schema) over the first file too, and its column-chunk view read 1025/3000/4096 values at a time; plus Reset as an operation: NewGenericRowGroupReader[any](src, target), NewRowGroupReader(src, target) and ConvertRowGroup(src, conv).Rows() over every source kind driven through ReadRows(k), Reset (readers that have it), rows from row 0 again, then the random ReadRows/SeekToRow/Reset history and a read to the end (forward seeks only over concatenating sources); plus caller-owned arguments: the source is handed to every pass as ONE []RowGroup that MergeRowGroups receives as it is, element identity and Schema() compared after every pass, and MergeRowGroups(inputs, target) followed by MergeRowGroups(the same inputs, schema of the file) = the rows of the file; plus reader options x typed constructors (typed_options.go): targets described by struct tags / + explicit schema / by StructTag replacements on an untagged twin type / + explicit schema, files opened plainly or with FileSchema, through parquet.Read[T], NewGenericReader[T], NewGenericRowGroupReader[T] over file row groups, MultiRowGroup, GenericBuffer[T1], RowBuffer[T1], deprecated NewReader/NewRowGroupReader + Read(&T), Schema() and rows compared, Read(k); Reset; read to the end; plus targets in which a same-named node changes kind (must be rejected). Non-trivial = at least one edit and one row (histories: at least two distinct views read); distinct by the JSON of the case."
 	if modelMode != "fixed" {
 		c.Note("model selected by C12_MODEL=%s", modelMode)
 	}
@@ -1672,6 +1710,11 @@ func typed(c *core.Ctx) {
 		typedPair(c, "add", rows, wantB)
 		typedPair(c, "map-value", rowsM, wantM)
 		typedPair(c, "identity", rows, rows)
+		if i%3 == 0 {
+			// the same targets described by reader options, through every typed constructor (typed_options.go)
+			typedOptionModes(c, "drop+reorder", rows, wantA, toT2aU, c.Seed*977+int64(i)*8)
+			typedOptionModes(c, "add", rows, wantB, toT2bU, c.Seed*977+int64(i)*8+4)
+		}
 	}
 	typedVariants(c)
 }
